@@ -44,7 +44,7 @@ ASSUMPTIONS = [
     'functions, classes and enum members are fingerprinted by identity',
 ]
 REQUIRED_COUNTERS = ['derive_pairs', 'fingerprints_compared', 'reruns_compared',
-                     'concurrent_pairs', 'marker_checks']
+                     'concurrent_pairs', 'marker_checks', 'monitor_share_runs']
 EXHAUSTIVE = {'quick': True, 'thorough': True}
 PLAN = {
     'quick': {'workers': 16, 'budget_s': 50, 'sampled_per_worker': 60,
@@ -305,6 +305,12 @@ def enumerated(tier):
     yield {'k': 'runs', 'prog': prog, 'cfg': cfg, 'n': 4, 'alt_start': True}
   yield {'k': 'pair', 'seed': None}
   yield {'k': 'pair', 'seed': 1}
+  # one @monitors decorator object wraps two phases, one of them derived with
+  # with_args(); what the monitor of one phase is given must not depend on
+  # which phase ran before, in this run, an earlier run or another test
+  for order in ('plain_first', 'boosted_first'):
+    for other in (False, True):
+      yield {'k': 'monshare', 'order': order, 'other_test': other}
 
 
 def _p(pid, **beh):
@@ -701,5 +707,68 @@ def run_pair(case):
   return {'sig': case, 'violations': viol[:4], 'counters': c}
 
 
+def run_monshare(case):
+  import time
+  H = pm.htf()
+  from openhtf.core import monitors
+  viol = []
+  c = {'monitor_share_runs': 0, 'reruns_compared': 0}
+
+  def read_level(test, **kwargs):
+    return kwargs.get('gain', 1)
+
+  def soak(test, gain=1):
+    m = test.measurements['level']
+    t_end = time.monotonic() + 5
+    while not m.is_value_set and time.monotonic() < t_end:
+      time.sleep(0.001)
+
+  watch = monitors.monitors('level', read_level, poll_interval_ms=2)
+  plain = H.PhaseOptions(name='plain')(watch(soak))
+  boosted = H.PhaseOptions(name='boosted')(
+      watch(H.PhaseDescriptor.wrap_or_copy(soak).with_args(gain=5)))
+  nodes = [plain, boosted] if case['order'] == 'plain_first' else [boosted, plain]
+  want = {'plain': [1], 'boosted': [5]}
+
+  def run(t):
+    recs = []
+    t.add_output_callbacks(recs.append)
+    t.execute()
+    pm.settle()
+    return recs[-1] if recs else None
+
+  def sampled(rec, name):
+    ph = [p for p in rec.phases if p.name == name]
+    if not ph:
+      return None
+    return sorted({row[-1] for row in ph[0].measurements['level'].measured_value.value})
+
+  t = H.Test(*nodes)
+  old_hook = threading.excepthook
+  threading.excepthook = lambda a: None
+  try:
+    runs = [('run-1', run(t), ('plain', 'boosted')), ('run-2', run(t), ('plain', 'boosted'))]
+    if case['other_test']:
+      runs.append(('other-test', run(H.Test(plain)), ('plain',)))
+  finally:
+    threading.excepthook = old_hook
+    pm.prune_handlers()
+  for label, rec, names in runs:
+    c['monitor_share_runs'] += 1
+    if rec is None:
+      viol.append({'mechanism': 'no-record', 'detail': {'run': label}})
+      continue
+    for name in names:
+      got = sampled(rec, name)
+      c['reruns_compared'] += 1
+      if got != want[name]:
+        viol.append({'mechanism': 'monitor-of-one-phase-given-another-phases-arguments',
+                     'detail': {'run': label, 'phase': name, 'sampled': got,
+                                'want': want[name], 'order': case['order']}})
+  return {'sig': ['monshare', case['order'], case['other_test']], 'violations': viol[:4],
+          'counters': c}
+
+
 def run_case(case):
-  return {'derive': run_derive, 'runs': run_runs, 'pair': run_pair}[case['k']](case)
+  return {'derive': run_derive, 'runs': run_runs, 'pair': run_pair,
+          'monshare': run_monshare}[case['k']](case)
